@@ -375,7 +375,8 @@ class C08(Prop):
             for cns in (cn_sets if deep else cn_sets[:2]):
                 yield {"k": "cert", "san": list(combo), "cns": cns, "hosts": hosts_b}
         for e in entries1 + [None]:
-            for cns in cn_sets + [["1.2.3.4"], ["xn--*"], ["a*"], ["A"]]:
+            # ["**", "a"] / ["a", "**"]: a malformed commonName next to a matching one (the CN loop passes over it too)
+            for cns in cn_sets + [["1.2.3.4"], ["xn--*"], ["a*"], ["A"], ["**", "a"], ["a", "**"]]:
                 yield {"k": "cert", "san": [e] if e else [], "cns": cns, "hosts": hosts_b + ["a.a.a", ""]}
         if deep:
             e3 = [["DNS", v] for v in n1] + [["IP Address", "1.2.3.4"], ["IP Address", "<invalid>"], ["URI", "a"]]
@@ -501,7 +502,8 @@ class C08(Prop):
 
     @staticmethod
     def _blocked_by_earlier_multi_wildcard(san, host):
-        """classifier: the accepting entry is preceded by a dNSName whose left-most label has >1 '*'"""
+        """classifier: the accepting entry is preceded by a dNSName whose left-most label has >1 '*'
+        (signature of a repaired defect, see notes/C08.md "Repaired defects" — seeing it again is a regression)"""
         seen_bad = False
         for k, v in san:
             if k != "DNS":
@@ -515,7 +517,8 @@ class C08(Prop):
 
     @staticmethod
     def _uppercase_ace(san, host):
-        """classifier: every wildcard A-label entry that matches spells its ACE prefix not as lower-case 'xn--'"""
+        """classifier: every wildcard A-label entry that matches spells its ACE prefix not as lower-case 'xn--'
+        (signature of a repaired defect, see notes/C08.md "Repaired defects" — seeing it again is a regression)"""
         for k, v in san:
             if k == "DNS" and ref_dns(v, host) == ("R", "a-label"):
                 left = v.split(".")[0]
